@@ -414,4 +414,216 @@ theorem nextEpoch_speciates_babies (o : EpochOpts W) (gen : Int) (p p' : Pop W) 
             refine ⟨p1, ex, rs1, babies, reg, uid, p2', log, blocks, ⟨hprep, hall, hlen', hsp, hlog, rfl⟩, hblocks,
               by simpa using hflat, by rw [hn1, ← hn2, hlen'], speciateLoopLog_orgs o _ _ _ _ hlog⟩
 
+/-! ### (b) every organism of the new generation was placed by the rule -/
+
+omit [Scalar W] in
+theorem mem_of_head?' {α} {l : List α} {a : α} (h : l.head? = some a) : a ∈ l := by
+  cases l with
+  | nil => cases h
+  | cons b t => simp only [List.head?_cons, Option.some.injEq] at h; subst h; exact List.mem_cons_self
+
+omit [Scalar W] in
+theorem purgeOrAgeLoop_shape (ss : List (Species W)) (k : Int) :
+    ∀ s' ∈ purgeOrAgeLoop ss k, ∃ s ∈ ss, ∃ k', s'.id = s.id ∧ s'.orgs = renumber s.orgs k' := by
+  induction ss generalizing k with
+  | nil => intro s hs; simp [purgeOrAgeLoop] at hs
+  | cons a t ih =>
+    intro s' hs'
+    unfold purgeOrAgeLoop at hs'
+    split at hs'
+    · obtain ⟨s, hs, r⟩ := ih _ s' hs'
+      exact ⟨s, List.mem_cons_of_mem _ hs, r⟩
+    · rcases List.mem_cons.mp hs' with rfl | h'
+      · exact ⟨a, List.mem_cons_self, k, rfl, rfl⟩
+      · obtain ⟨s, hs, r⟩ := ih _ s' h'
+        exact ⟨s, List.mem_cons_of_mem _ hs, r⟩
+
+omit [Scalar W] in
+/-- the final purge, species by species: a species of the new population is a species of the population after speciation
+    (same id) with the old generation filtered out and the genome ids renumbered — order kept -/
+theorem finalize_shape (p2 : Pop W) : ∀ s' ∈ (finalizeReproduction p2).species,
+    ∃ (j : Nat) (s2 : Species W) (k : Int), p2.species[j]? = some s2 ∧ s'.id = s2.id ∧
+      s'.orgs = renumber (s2.orgs.filter (fun o => !p2.organisms.contains o.uid)) k := by
+  intro s' hs'
+  have hs'' : s' ∈ purgeOrAgeLoop (purgeOldGeneration p2).species 0 := hs'
+  obtain ⟨s, hs, k, hid, ho⟩ := purgeOrAgeLoop_shape _ _ s' hs''
+  unfold purgeOldGeneration at hs
+  obtain ⟨s2, hs2, rfl⟩ := List.mem_map.mp hs
+  obtain ⟨j, hj⟩ := List.getElem?_of_mem hs2
+  exact ⟨j, s2, k, hj, hid, ho⟩
+
+/-- how organism `x` of species `s'` of the new generation got there: it is baby `b` (genome id renumbered by the final
+    purge) with log entry `(q, b)`, and either
+    * FOUNDER: no species was chosen at `q`; `s'` carries the fresh id `q.lastSpecies + 1`, above the `LastSpecies` the
+      turnover started with, and `x` is still the first organism of `s'`; or
+    * JOINED: the search chose position `i` of `q.species`, holding the species with the id of `s'`, whose first organism
+      at that moment, `rep`, was within the threshold; and `rep` is
+        - an OLD-GENERATION organism: the first organism of the species at the same position `i` of the prepared
+          population `p1`, listed in `p1.organisms` (what `purgeOldGeneration` removes afterwards), or
+        - the FOUNDER baby of `s'` (a species founded during this turnover, beyond the old list), which is still the first
+          organism of `s'` (genome id renumbered). -/
+def PlacedInEpoch (o : EpochOpts W) (p p1 : Pop W) (babies : List (Org W)) (log : List (Pop W × Org W))
+    (s' : Species W) (x : Org W) : Prop :=
+  ∃ q b, (q, b) ∈ log ∧ b ∈ babies ∧ x = { b with genome := { b.genome with id := x.genome.id } } ∧
+    ((placeTarget o q b = none ∧ s'.id = q.lastSpecies + 1 ∧ p.lastSpecies < s'.id ∧ s'.orgs.head? = some x) ∨
+     (∃ i sq rep, placeTarget o q b = some i ∧ q.species[i]? = some sq ∧ sq.id = s'.id ∧ sq.orgs.head? = some rep ∧
+        lt (compatibility o.compat b.genome rep.genome) o.compatThreshold = true ∧
+        ((∃ s1, p1.species[i]? = some s1 ∧ s1.id = s'.id ∧ s1.orgs.head? = some rep ∧ rep.uid ∈ p1.organisms) ∨
+         (p.lastSpecies < s'.id ∧ rep ∈ babies ∧ p1.species.length ≤ i ∧
+           ∃ x0, s'.orgs.head? = some x0 ∧ x0 = { rep with genome := { rep.genome with id := x0.genome.id } }))))
+
+/-- **C08 over the epoch, (b).**  Let `p` be a consistently allocated population (`UidInv`) with unique species ids and let
+    the turnover run through the stages `st` (`nextEpoch_speciates_babies` provides them whenever `nextEpoch` returns).
+    Then EVERY organism of EVERY species of the new population was placed as `PlacedInEpoch` says.  For every scalar type,
+    stream, registry and option setting. -/
+theorem nextEpoch_placed (o : EpochOpts W) (gen : Int) (p p' p1 p2 : Pop W) (ex : ExecState) (rs rs1 rs' : List Nat)
+    (babies : List (Org W)) (reg : Reg W) (uid : Nat) (log : List (Pop W × Org W))
+    (hu : C02.UidInv p) (hnd : (p.species.map (·.id)).Nodup)
+    (st : Stages o gen p rs p1 ex rs1 babies reg uid p2 log p' rs') :
+    ∀ s' ∈ p'.species, ∀ x ∈ s'.orgs, PlacedInEpoch o p p1 babies log s' x := by
+  have hu1 := (C02.prepare_uidInv o p p1 ex rs rs1 hnd hu st.prep).1
+  have hlast : p1.lastSpecies = p.lastSpecies := (C02.prepare_spec o p p1 ex rs rs1 hnd st.prep).1
+  have hheads := C10.reproduceAll_heads o gen _ _ _ _ _ _ _ _ _ _ st.repro
+  obtain ⟨_, _, hge⟩ := C02.reproduceAll_uids o gen _ _ _ _ _ _ [] babies _ _ st.repro (by simp) (by simp)
+  have hloop := speciateLoop_of_log o _ _ _ _ st.log
+  have horg : p2.organisms = p1.organisms := (C02.speciateLoop_uids o _ _ _ hloop).2.1
+  have hlogorgs := speciateLoopLog_orgs o _ _ _ _ st.log
+  have hstruct := speciateLoopLog_structure o _ p2 babies log st.log
+  have hbaby : ∀ q b, (q, b) ∈ log → b ∈ babies := by
+    intro q b hqb
+    rw [← hlogorgs]; exact List.mem_map.mpr ⟨(q, b), hqb, rfl⟩
+  have hnew : ∀ b ∈ babies, b.uid ∉ p2.organisms := by
+    intro b hb hmem
+    rw [horg] at hmem
+    have := hu1.below _ hmem
+    rcases hge b.uid (List.mem_map_of_mem hb) with h' | h'
+    · simp at h'
+    · omega
+  have hold : ∀ s1 ∈ p1.species, ∀ y ∈ s1.orgs, y.uid ∈ p2.organisms := by
+    intro s1 hs1 y hy
+    rw [horg]
+    apply hu1.listed
+    simp only [C02.orgUids, List.mem_flatMap, List.mem_map]
+    exact ⟨s1, hs1, y, hy, rfl⟩
+  intro s' hs' x hx
+  rw [st.fin] at hs'
+  obtain ⟨j, s2, k, hj, hid, ho⟩ := finalize_shape p2 s' hs'
+  rcases hstruct j s2 hj with ⟨s1, t, hs1, hid1, ho1, hjoin⟩ | ⟨hlen, f, t, hof, hfound, hjoin⟩
+  · -- a species surviving from the old generation
+    have hs1' : p1.species[j]? = some s1 := hs1
+    have hs1m := List.mem_of_getElem? hs1'
+    rw [ho] at hx
+    obtain ⟨y, hy, e⟩ := C10.renumber_bwd _ _ x hx
+    simp only [List.mem_filter, Bool.not_eq_true', List.contains_eq_mem, decide_eq_false_iff_not] at hy
+    obtain ⟨hy1, hy2⟩ := hy
+    rw [ho1] at hy1
+    rcases List.mem_append.mp hy1 with hyo | hyt
+    · exact absurd (hold s1 hs1m y hyo) hy2
+    · obtain ⟨q, hq, htar, sq, rep, hsq, hsqid, hrep, hhead, hlt⟩ := hjoin y hyt
+      obtain ⟨c, hc⟩ := hheads s1 hs1m
+      have hh : s2.orgs.head? = some c := by rw [ho1]; exact head?_append_of_head? _ hc
+      rw [hh] at hhead
+      cases hhead
+      refine ⟨q, y, hq, hbaby q y hq, e, Or.inr ⟨j, sq, rep, htar, hsq, by rw [hsqid, hid], hrep, hlt,
+        Or.inl ⟨s1, hs1', by rw [hid, hid1], hc, ?_⟩⟩⟩
+      rw [← horg]; exact hold s1 hs1m rep (mem_of_head?' hc)
+  · -- a species founded during this turnover
+    obtain ⟨q0, hq0, htar0, hid0, hbase⟩ := hfound
+    have hbase' : p1.lastSpecies ≤ q0.lastSpecies := hbase
+    have hlen' : p1.species.length ≤ j := hlen
+    have hfb := hbaby q0 f hq0
+    have hfnew := hnew f hfb
+    have hidgt : p.lastSpecies < s'.id := by rw [hid, hid0, ← hlast]; omega
+    have hfilter : s2.orgs.filter (fun o => !p2.organisms.contains o.uid) =
+        f :: t.filter (fun o => !p2.organisms.contains o.uid) := by
+      rw [hof, List.filter_cons_of_pos]; simpa using hfnew
+    rw [hfilter] at ho
+    have ho' : s'.orgs = { f with genome := { f.genome with id := k } } ::
+        renumber (t.filter (fun o => !p2.organisms.contains o.uid)) (k + 1) := by
+      rw [ho]; rfl
+    rw [ho'] at hx
+    rcases List.mem_cons.mp hx with rfl | hx'
+    · exact ⟨q0, f, hq0, hfb, rfl, Or.inl ⟨htar0, by rw [hid, hid0], hidgt, by rw [ho']; rfl⟩⟩
+    · obtain ⟨y, hy, e⟩ := C10.renumber_bwd _ _ x hx'
+      have hyt := (List.mem_filter.mp hy).1
+      obtain ⟨q, hq, htar, sq, rep, hsq, hsqid, hrep, hhead, hlt⟩ := hjoin y hyt
+      rw [hof] at hhead
+      simp only [List.head?_cons, Option.some.injEq] at hhead
+      subst hhead
+      exact ⟨q, y, hq, hbaby q y hq, e, Or.inr ⟨j, sq, f, htar, hsq, by rw [hsqid, hid], hrep, hlt,
+        Or.inr ⟨hidgt, hfb, hlen', _, by rw [ho']; rfl, rfl⟩⟩⟩
+
+/-- **C08 over the epoch, (b) with the nearest-compatible rule.**  Over a strict weak order, with all distances met by the
+    search below its sentinel: every organism `x` of the new generation is a baby `b` whose placement — at the species list
+    `q.species` of the moment of its arrival — followed the rule of `bestCompatible_spec` (`Nearest`): it joined the FIRST
+    species attaining the minimal distance among the representatives within the threshold, the species having the id of
+    the species that holds `x` now; or no representative was within the threshold and it founded the species that holds
+    it now, with a fresh id above the old `LastSpecies`, of which it still is the first organism. -/
+theorem nextEpoch_placed_nearest (hw : StrictWeak W) (o : EpochOpts W) (gen : Int) (p p' p1 p2 : Pop W) (ex : ExecState)
+    (rs rs1 rs' : List Nat) (babies : List (Org W)) (reg : Reg W) (uid : Nat) (log : List (Pop W × Org W))
+    (hu : C02.UidInv p) (hnd : (p.species.map (·.id)).Nodup)
+    (st : Stages o gen p rs p1 ex rs1 babies reg uid p2 log p' rs')
+    (hfin : ∀ e ∈ log, finiteAt o e.1.species e.2 = true) :
+    ∀ s' ∈ p'.species, ∀ x ∈ s'.orgs, ∃ q b, (q, b) ∈ log ∧ x = { b with genome := { b.genome with id := x.genome.id } } ∧
+      Nearest o q.species b (placeTarget o q b) ∧
+      match placeTarget o q b with
+      | none => s'.id = q.lastSpecies + 1 ∧ p.lastSpecies < s'.id ∧ s'.orgs.head? = some x
+      | some i => ∃ sq, q.species[i]? = some sq ∧ sq.id = s'.id := by
+  intro s' hs' x hx
+  obtain ⟨q, b, hq, _, e, hcase⟩ := nextEpoch_placed o gen p p' p1 p2 ex rs rs1 rs' babies reg uid log hu hnd st s' hs' x hx
+  refine ⟨q, b, hq, e, placeTarget_nearest hw o q b (hfin _ hq), ?_⟩
+  rcases hcase with ⟨h1, h2, h3, h4⟩ | ⟨i, sq, rep, h1, h2, h3, _⟩
+  · rw [h1]; exact ⟨h2, h3, h4⟩
+  · rw [h1]; exact ⟨sq, h2, h3⟩
+
+/-! ### (c) `spawn`: the same rule, starting from an empty species list -/
+
+theorem speciateLoop_of_speciate {o : EpochOpts W} {p0 p' : Pop W} {orgs : List (Org W)}
+    (h : speciate o p0 orgs = .ok p') : speciateLoop o p0 orgs = .ok p' := by
+  unfold speciate at h
+  split at h
+  · cases h
+  · exact h
+
+/-- **C08 for `spawn`.**  If `spawn o g rs` returns `p`, then `p` is the result of exactly one `speciate` call on the spawned
+    organisms `orgs` (in order of creation) into a population `p0` WITHOUT species and `LastSpecies = 0`; every species of `p`
+    was founded by one of them (`FoundedAt`: no species chosen at its arrival, fresh id), which is its first organism, and
+    every other member joined when that founder was within the threshold (`JoinedAt`). -/
+theorem spawn_placed (o : EpochOpts W) (g : Genome W) (p : Pop W) (rs rs' : List Nat) (h : spawn o g rs = .ok (p, rs')) :
+    ∃ orgs p0 log, spawnLoop g o.popSize 0 0 rs = .ok (orgs, rs') ∧ p0.species = [] ∧ p0.lastSpecies = 0 ∧
+      speciate o p0 orgs = .ok p ∧ speciateLoopLog o p0 orgs = .ok (p, log) ∧ log.map (·.2) = orgs ∧
+      ∀ j s', p.species[j]? = some s' →
+        ∃ f t, s'.orgs = f :: t ∧ FoundedAt o log 0 s' f ∧ ∀ y ∈ t, JoinedAt o log j s' y := by
+  unfold spawn at h
+  split at h
+  · cases h
+  · split at h
+    · cases h
+    · rename_i orgs rs1 hloop
+      split at h
+      · cases h
+      · rename_i lastNode hln
+        split at h
+        · cases h
+        · rename_i nextInn hni
+          simp only at h
+          split at h
+          · cases h
+          · rename_i p' hsp
+            simp only [Except.ok.injEq, Prod.mk.injEq] at h
+            obtain ⟨rfl, rfl⟩ := h
+            have hl := speciateLoop_of_speciate hsp
+            obtain ⟨log, hlog⟩ := log_of_speciateLoop o _ _ _ hl
+            refine ⟨orgs, _, log, hloop, rfl, rfl, hsp, hlog, speciateLoopLog_orgs o _ _ _ _ hlog, ?_⟩
+            intro j s' hj
+            rcases speciateLoopLog_structure o _ _ _ _ hlog j s' hj with ⟨s, t, hs, _⟩ | ⟨_, r⟩
+            · simp at hs
+            · exact r
+
+/-- the nearest-compatible rule for every entry of a placement log (of an epoch or of `spawn`) -/
+theorem log_nearest (hw : StrictWeak W) (o : EpochOpts W) (log : List (Pop W × Org W))
+    (hfin : ∀ e ∈ log, finiteAt o e.1.species e.2 = true) :
+    ∀ e ∈ log, Nearest o e.1.species e.2 (placeTarget o e.1 e.2) :=
+  fun e he => placeTarget_nearest hw o e.1 e.2 (hfin e he)
+
 end GoNeat.C08
